@@ -1,4 +1,5 @@
 import Rivaas.Lemmas.RadixNodes
+import Rivaas.Lemmas.MatchOrder
 /-
 Layer L1b of C01: the descent of `getRoute` seen as a pure choice of a node (`descend`), what it finds
 (soundness, unconditional) and when it finds the reference route (completeness under NoShadow).
@@ -442,5 +443,145 @@ theorem descend_complete (L : List Entry) (hL : ∀ e ∈ L, e.ok) (trail : Bool
         cases hw : (getK (nodesOf L) cur).wild with
         | none => rw [hw] at hwd; simp at hwd
         | some lf => simp [ekeys, ekey, endsWild, pushesFor]
+
+
+/-! ### maximality of the descent (unconditional) -/
+
+theorem strip_append (pat : Pat) (a b : Key) : strip pat (a ++ b) = (strip pat a).bind fun s => strip s b := by
+  induction a generalizing pat with
+  | nil => simp [strip_nil_key]
+  | cons e a' ih =>
+    cases pat with
+    | nil => simp [strip]
+    | cons seg rest =>
+      simp only [List.cons_append, strip]
+      by_cases h : ekey seg = some e
+      · simp only [h, if_true]; exact ih rest
+      · simp [h]
+
+theorem strip_cons_inv (suf : Pat) (e : ESeg) (q : Key) (t : Pat) (h : strip suf (e :: q) = some t) :
+    ∃ seg suf1, suf = seg :: suf1 ∧ ekey seg = some e ∧ strip suf1 q = some t := by
+  cases suf with
+  | nil => simp [strip] at h
+  | cons seg suf1 =>
+    simp only [strip] at h
+    by_cases he : ekey seg = some e
+    · simp only [he, if_true] at h
+      exact ⟨seg, suf1, rfl, he, h⟩
+    · simp [he] at h
+
+theorem ekey_param {seg : PSeg} (h : ekey seg = some ESeg.p) : ∃ n, seg = PSeg.par n := by
+  cases seg with
+  | lit s => simp [ekey] at h
+  | par n => exact ⟨n, rfl⟩
+  | wild => simp [ekey] at h
+
+/-- **Priority, unconditionally**: the pattern of the node the descent ends at is not beaten by any
+registered pattern that matches the same segments — whatever else is registered. -/
+theorem descend_max (L : List Entry) (hL : ∀ e ∈ L, e.ok) (trail : Bool) (segs : List Bytes) :
+    ∀ (cur q : Key) (w : Bool) (ps : List (Bytes × Bytes)),
+      descend (nodesOf L) trail cur segs = some (cur ++ q, w, ps) →
+      ∀ (suf : Pat), strip suf q = some (if w then [PSeg.wild] else []) →
+      ∀ e' ∈ L, ∀ suf', strip e'.pat cur = some suf' → (matchPat trail suf' segs).isSome = true →
+        better suf' suf = false := by
+  induction segs with
+  | nil => intro cur q w ps h; simp [descend] at h
+  | cons x rest ih =>
+    intro cur q w ps h suf hsuf e' he' suf' hs' hm'
+    -- the continuation after a static or parameter step
+    have hnext : ∀ (e : ESeg) (push : List (Bytes × Bytes)),
+        (if (rest.isEmpty && !trail) = true then some (cur ++ [e], false, push)
+         else (descend (nodesOf L) trail (cur ++ [e]) rest).map fun r => (r.1, r.2.1, push ++ r.2.2)) = some (cur ++ q, w, ps) →
+        ∃ seg suf1, suf = seg :: suf1 ∧ ekey seg = some e ∧
+          ∀ t', strip e'.pat (cur ++ [e]) = some t' → (matchPat trail t' rest).isSome = true → better t' suf1 = false := by
+      intro e push hh
+      by_cases hl : (rest.isEmpty && !trail) = true
+      · simp only [hl, if_true, Option.some.injEq, Prod.mk.injEq] at hh
+        obtain ⟨hk, hw, _⟩ := hh
+        have hq : q = [e] := List.append_cancel_left hk.symm
+        subst hq; subst hw
+        simp only [Bool.false_eq_true, if_false] at hsuf
+        obtain ⟨seg, suf1, rfl, hek, hs1⟩ := strip_cons_inv _ _ _ _ hsuf
+        rw [strip_nil_key] at hs1
+        injection hs1 with hs1
+        subst hs1
+        refine ⟨seg, [], rfl, hek, ?_⟩
+        intro t' _ hmt
+        simp only [Bool.and_eq_true, List.isEmpty_iff, Bool.not_eq_true'] at hl
+        rw [hl.1] at hmt
+        obtain ⟨rfl, _⟩ := matchPat_nil_segs trail t' hmt
+        rfl
+      · simp only [hl, Bool.false_eq_true, if_false] at hh
+        cases hd : descend (nodesOf L) trail (cur ++ [e]) rest with
+        | none => simp [hd] at hh
+        | some r =>
+          obtain ⟨k', w', ps'⟩ := r
+          simp only [hd, Option.map_some, Option.some.injEq, Prod.mk.injEq] at hh
+          obtain ⟨hk, hw, _⟩ := hh
+          subst hw
+          obtain ⟨q', hq', _⟩ := descend_shape _ _ _ _ _ _ _ hd
+          have hq : q = e :: q' := by
+            apply List.append_cancel_left (as := cur)
+            rw [← hk, hq']; simp
+          subst hq
+          obtain ⟨seg, suf1, rfl, hek, hs1⟩ := strip_cons_inv _ _ _ _ hsuf
+          refine ⟨seg, suf1, rfl, hek, ?_⟩
+          intro t' hst' hmt
+          rw [hq'] at hd
+          exact ih (cur ++ [e]) q' w' ps' hd suf1 hs1 e' he' t' hst' hmt
+    simp only [descend] at h
+    by_cases hs : hasK (nodesOf L) (cur ++ [ESeg.s x]) = true
+    · -- a static step
+      simp only [hs, if_true] at h
+      obtain ⟨seg, suf1, rfl, hek, hrec⟩ := hnext _ _ h
+      have hseg := ekey_static hek
+      subst hseg
+      rcases MatchL.matchPat_cons_inv trail suf' x rest hm' with rfl | ⟨t', rfl, ht'⟩ | ⟨n', t', rfl, ht'⟩
+      · simp [better, kind]
+      · simp only [better, kind, if_true]
+        apply hrec t' _ ht'
+        rw [strip_snoc, hs']; simp [stepSuf, ekey]
+      · simp [better, kind]
+    · simp only [hs, Bool.false_eq_true, if_false] at h
+      have hnostat : ∀ t', suf' ≠ PSeg.lit x :: t' := by
+        intro t' e0
+        apply hs
+        rw [nodesOf_hasK L hL _ (by simp)]
+        simp only [List.any_eq_true]
+        refine ⟨e', he', ?_⟩
+        rw [strip_snoc, hs', e0]; simp [stepSuf, ekey]
+      cases hp : (getK (nodesOf L) cur).pname with
+      | some key =>
+        simp only [hp] at h
+        obtain ⟨seg, suf1, rfl, hek, hrec⟩ := hnext _ _ h
+        obtain ⟨n0, rfl⟩ := ekey_param hek
+        rcases MatchL.matchPat_cons_inv trail suf' x rest hm' with rfl | ⟨t', rfl, ht'⟩ | ⟨n', t', rfl, ht'⟩
+        · simp [better, kind]
+        · exact absurd rfl (hnostat t')
+        · simp only [better, kind, if_true]
+          apply hrec t' _ ht'
+          rw [strip_snoc, hs']; simp [stepSuf, ekey]
+      | none =>
+        simp only [hp] at h
+        cases hw : (getK (nodesOf L) cur).wild with
+        | none => simp [hw] at h
+        | some lf =>
+          simp only [hw, Option.some.injEq, Prod.mk.injEq] at h
+          obtain ⟨hk, hww, _⟩ := h
+          have hq : q = [] := by
+            have : cur ++ [] = cur ++ q := by simpa using hk
+            exact (List.append_cancel_left this).symm
+          subst hq; subst hww
+          rw [strip_nil_key] at hsuf
+          simp only [if_true, Option.some.injEq] at hsuf
+          subst hsuf
+          rcases MatchL.matchPat_cons_inv trail suf' x rest hm' with rfl | ⟨t', rfl, ht'⟩ | ⟨n', t', rfl, ht'⟩
+          · rfl
+          · exact absurd rfl (hnostat t')
+          · exfalso
+            have : ((getK (nodesOf L) cur).pname).isSome = true := by
+              rw [nodesOf_pname L hL]
+              exact firstSome_isSome_of_mem _ L e' he' (by simp [nameAtS, hs'])
+            rw [hp] at this; simp at this
 
 end Rivaas.RadixL
